@@ -664,6 +664,14 @@ func (pids *pids) create(txidp *string, txTimeout int32) (int64, int16) {
 	// to avoid FNV-64 hash collisions between different txids.
 	if txidp != nil {
 		if pidinf, ok := pids.byTxid[*txidp]; ok {
+			// A new producer instance takes over the transactional
+			// ID: abort whatever transaction the previous instance
+			// left open, exactly as the KIP-360 path does, or its
+			// records would be committed by the new instance's first
+			// commit marker.
+			if pidinf.inTx {
+				pidinf.endTx(false)
+			}
 			pidinf = pids.bumpEpoch(pidinf)
 			pidinf.lastActive = time.Now()
 			return pidinf.id, pidinf.epoch
